@@ -1,3 +1,131 @@
+import Chiritori.Lemmas.Tokenizer
 import Chiritori.Spec.Holds
+/-
+  C07 — Tokenization is a lossless partition with consistent offsets.
+
+  `Statement` is the full property; `c07` proves it for every source and every pair of non-empty
+  delimiters (no bound on the length of the source).
+-/
 namespace Chiritori.Props.C07
+open Chiritori Chiritori.Spec
+
+theorem contiguous_of_chain (ts : List Token) (s bs : Nat) (h : ChainFrom ts s bs) : contiguous ts = true := by
+  induction ts generalizing s bs with
+  | nil => rfl
+  | cons a rest ih =>
+    cases rest with
+    | nil => rfl
+    | cons b rest' =>
+      simp only [ChainFrom] at h
+      obtain ⟨_, _, _, _, _, hb1, hb2, hrest⟩ := h
+      simp only [contiguous, Bool.and_eq_true, beq_iff_eq]
+      refine ⟨⟨hb1.symm, hb2.symm⟩, ?_⟩
+      exact ih a.stop a.bstop (by simp only [ChainFrom]; exact ⟨hb1, hb2, hrest⟩)
+
+theorem noAdjacentText_of (ts : List Token) (h : NoAdjText ts) : noAdjacentText ts = true := by
+  induction ts with
+  | nil => rfl
+  | cons a rest ih =>
+    cases rest with
+    | nil => rfl
+    | cons b rest' =>
+      simp only [NoAdjText] at h
+      simp only [noAdjacentText, Bool.and_eq_true, Bool.not_eq_true', Bool.and_eq_false_iff, beq_eq_false_iff_ne]
+      refine ⟨?_, ih h.2⟩
+      by_cases ha : a.kind = .text
+      · right; intro hb; exact h.1 ⟨ha, hb⟩
+      · left; exact ha
+
+/-- the position of a token inside a chain -/
+theorem chain_at (pre post : List Token) (t : Token) (h : ChainFrom (pre ++ t :: post) 0 0) :
+    t.start = (flat pre).length ∧ t.bstart = blen (flat pre) ∧ t.value ≠ [] ∧
+    t.stop = (flat pre).length + t.value.length ∧ t.bstop = blen (flat pre) + blen t.value := by
+  rw [chainFrom_append] at h
+  obtain ⟨_, h2⟩ := h
+  simp only [ChainFrom, Nat.zero_add] at h2
+  exact ⟨h2.1, h2.2.1, h2.2.2.1, h2.2.2.2.1, h2.2.2.2.2.1⟩
+
+theorem tokenOk_of (src ds de : List Char) (pre post : List Token) (t : Token)
+    (hc : ChainFrom (pre ++ t :: post) 0 0) (hf : flat (pre ++ t :: post) = src)
+    (hk : t.kind = .element → DelimOK ds de t.value) : tokenOk src ds de t = true := by
+  obtain ⟨h1, h2, h3, h4, h5⟩ := chain_at pre post t hc
+  have hsrc : src = flat pre ++ (t.value ++ flat post) := by rw [← hf]; simp
+  have hb1 : isBoundary (bytesOf src) t.bstart = true := by
+    rw [h2, hsrc]; exact isBoundary_blen_prefix _ _
+  have hb2 : isBoundary (bytesOf src) t.bstop = true := by
+    rw [h5, ← blen_append, hsrc, ← List.append_assoc]; exact isBoundary_blen_prefix _ _
+  have hkind : (t.kind == TKind.text || (ds.isPrefixOf t.value && de.isSuffixOf t.value)) = true := by
+    cases hkk : t.kind with
+    | text => simp
+    | element =>
+      obtain ⟨body, _, hv⟩ := hk hkk
+      have hp : ds <+: t.value := ⟨body ++ de, by rw [hv]; simp⟩
+      have hs : de <:+ t.value := ⟨ds ++ body, by rw [hv]⟩
+      simp [List.isPrefixOf_iff_prefix.mpr hp, List.isSuffixOf_iff_suffix.mpr hs]
+  unfold tokenOk
+  simp only [Bool.and_eq_true, bne_iff_ne, ne_eq, beq_iff_eq, decide_eq_true_eq]
+  refine ⟨⟨⟨⟨⟨⟨⟨h3, ?_⟩, ?_⟩, ?_⟩, ?_⟩, hb1⟩, hb2⟩, hkind⟩ <;> omega
+
+/-- Full statement of C07 for one token list. -/
+def Statement : Prop :=
+  ∀ (src ds de : List Char), ds ≠ [] → de ≠ [] → c07Holds src ds de (tokenize src ds de) = true
+
+theorem holds_of_ok (src ds de : List Char) (ts : List Token) (h : TokensOK ds de src ts) (hn : NoAdjText ts) :
+    c07Holds src ds de ts = true := by
+  unfold c07Holds
+  cases hts : ts with
+  | nil =>
+    have : src = [] := by have := h.flatEq; rw [hts] at this; simpa using this.symm
+    simp [this]
+  | cons t0 rest =>
+    have hne : ts ≠ [] := by rw [hts]; simp
+    obtain ⟨ini, hini⟩ : ∃ ini, ts = ini ++ [ts.getLast hne] := ⟨_, (List.dropLast_concat_getLast hne).symm⟩
+    have hlast := chain_at ini [] (ts.getLast hne) (by rw [← hini]; exact h.chain)
+    have hfl : src = flat ini ++ (ts.getLast hne).value := by
+      rw [← h.flatEq]; conv => lhs; rw [hini]
+      simp
+    have hhead := chain_at [] rest t0 (by rw [← hts]; simpa using h.chain)
+    have hall : ts.all (tokenOk src ds de) = true := by
+      rw [List.all_eq_true]
+      intro t ht
+      obtain ⟨pre, post, hsplit⟩ := List.append_of_mem ht
+      exact tokenOk_of src ds de pre post t (by rw [← hsplit]; exact h.chain) (by rw [← hsplit]; exact h.flatEq)
+        (h.kinds t ht)
+    have hcont := contiguous_of_chain ts 0 0 h.chain
+    have hna := noAdjacentText_of ts hn
+    have hfe : (ts.flatMap (·.value) == src) = true := by
+      have := h.flatEq; unfold flat at this; simp [this]
+    have hgl : ts.getLast? = some (ts.getLast hne) := List.getLast?_eq_some_getLast hne
+    rw [← hts]
+    rw [hgl]
+    have hh : ts.head? = some t0 := by rw [hts]; rfl
+    rw [hh]
+    simp only [hcont, hna, hall, hfe, Bool.and_true]
+    simp only [Bool.or_eq_true, Bool.and_eq_true, beq_iff_eq]
+    right
+    refine ⟨⟨⟨?_, ?_⟩, ?_⟩, ?_⟩
+    · simpa using hhead.1
+    · simpa using hhead.2.1
+    · rw [hlast.2.2.2.1, hfl]; simp
+    · rw [hlast.2.2.2.2, hfl, blen_append]
+
+theorem c07 : Statement := by
+  intro src ds de _ hde
+  obtain ⟨hok, hn⟩ := tokenize_ok src ds de hde
+  exact holds_of_ok src ds de _ hok hn
+
+/-- corollary used downstream: every tag token is `ds ++ body ++ de` with a non-empty body -/
+theorem tag_tokens_delimited (src ds de : List Char) (hde : de ≠ []) :
+    ∀ t ∈ tokenize src ds de, t.kind = .element → ∃ body, body ≠ [] ∧ t.value = ds ++ body ++ de :=
+  (tokenize_ok src ds de hde).1.kinds
+
+/-! Non-vacuity and sanity: a concrete multi-token source (with a final multi-byte character). -/
+example : (tokenize "a<b>cあ".toList "<".toList ">".toList).length = 3 := by decide
+example : c07Holds "a<b>cあ".toList "<".toList ">".toList (tokenize "a<b>cあ".toList "<".toList ">".toList) = true := by
+  decide
+/-- the predicate is not trivially true: the token list of the pre-repair tokenizer (byte_end = 6) is rejected -/
+example : c07Holds "a<b>cあ".toList "<".toList ">".toList
+    [⟨.text, ['a'], 0, 0, 1, 1⟩, ⟨.element, "<b>".toList, 1, 1, 4, 4⟩, ⟨.text, "cあ".toList, 4, 4, 6, 6⟩] = false := by
+  decide
+
 end Chiritori.Props.C07
